@@ -73,7 +73,7 @@ namespace perturb {
 	// A comparison of two same-class objects (two nodes of one type, two derived clocks, two entities, two
 	// node groups ...) by ADDRESS therefore gives opposite answers in the level 2 and the level 3 build,
 	// deterministically.  The blocks are ordinary malloc blocks, so free()/delete needs no special case.
-	static constexpr size_t NCLASS = 65;       // class c serves sizes (16(c-1), 16c], c = 1..64
+	static constexpr size_t NCLASS = 129;      // class c serves sizes (16(c-1), 16c], c = 1..128: up to 2048 bytes (vhdl::Entity is 1104, vhdl::Block 1072)
 	struct Pool { void **blk = nullptr; size_t lo = 0, hi = 0; };
 	static Pool pools[NCLASS];
 	static uint64_t nPooled = 0;
@@ -86,7 +86,7 @@ namespace perturb {
 		for (size_t k = 0; k < NCLASS; k++) {
 			size_t c = order[k];
 			if (c == 0) continue;
-			size_t n = c <= 32 ? 1200 : 300;
+			size_t n = c <= 32 ? 1200 : c <= 64 ? 300 : 200;
 			Pool &p = pools[c];
 			p.blk = (void**)malloc(n * sizeof(void*));
 			for (size_t i = 0; i < n; i++) p.blk[i] = malloc(c * 16);
